@@ -174,3 +174,19 @@ Proof.
           apply existsb_exists in E; destruct E as [s [Hin Hs]]; exists s; split; [exact Hin|]; split;
           [destruct (snd s); try discriminate; reflexivity | exact U] ].
 Qed.
+
+(* ---------------------------------------------------------------- FComponent.replace *)
+(* hy/models.py: FComponent.replace(other) calls super().replace(other, recursive) -- which for a Sequence builds
+   and returns a positioned *copy* -- and then returns self.  When the regenerated flag says the copy is dropped,
+   an unpositioned replacement field of a macro-built f-string stays unpositioned. *)
+Definition fcomponent_replace (o : option pos) (f : form) : form :=
+  if fcomponent_replace_discards then f else replace o f.
+
+Theorem fcomponent_replace_status :
+  fcomponent_replace_discards = false
+  \/ (forall o, emits pos_attrs (fcomponent_replace o (Form None [])) 1).
+Proof.
+  first [ left; reflexivity
+        | right; intros o; unfold fcomponent_replace; cbv beta iota delta [fcomponent_replace_discards];
+          exact unpositioned_model_reports_line_1 ].
+Qed.
